@@ -373,16 +373,19 @@ class CallMixin:
         st.wr('chan.closed', (ch,), BoolVal(False), B, log=False)
 
     def chan_recv(self, fr, st, ch, ins, site):
-        self.event(fr, st, 'recv', ch, ins, site)
+        rule = self.chan_hook(fr, st, 'recv', ch, ins, site, operand=ins['x'])
         t = ins['type']
         if ins.get('commaok'):
             _, d = self.p.under(t)
             v = self.fresh(st, d['elems'][0], 'recv'); ok = fbool('recvok')
             return TupleV([v, ok])
-        return self.fresh(st, t, 'recv')
+        v = self.fresh(st, t, 'recv')
+        if rule is not None:
+            st.assume(self.ev_bool(rule[0], {'st': st, 'old': None, 'vars': {'v': (v, t)}, 'fr': fr}))
+        return v
 
     def chan_send(self, fr, st, ch, v, ins, site):
-        self.event(fr, st, 'send', ch, ins, site)
+        self.chan_hook(fr, st, 'send', ch, ins, site, operand=ins['chan'], value=v)
 
     def chan_close(self, fr, st, ch, ins, site, cont):
         self.oblige(st, fr, 'safety.closeclosed', '', Not(st.rd('chan.closed', (ch,), B)), site)
@@ -390,8 +393,7 @@ class CallMixin:
         return cont(st, None)
 
     def event(self, fr, st, kind, ch, ins, site):
-        hook = getattr(self, 'event_hook', None)
-        if hook: hook(fr, st, kind, ch, ins, site)
+        pass
 
     def do_select(self, fr, st, ins, site, cont):
         """nondeterministic choice among the cases; result tuple (index, recvOk, recv values...)"""
@@ -402,20 +404,23 @@ class CallMixin:
         if not ins['blocking']: choices.append(-1)
         for ci in choices:
             s2 = st.copy()
+            f2 = fr.fork()
             vals = [IntVal(ci), fbool('recvok')]
             ri = 2
             for si, sst in enumerate(states):
                 if sst['dir'] == 2:   # recv
                     if si == ci:
-                        ch = self.val(sst['chan'], fr, s2)
-                        self.event(fr, s2, 'recv', ch, ins, site)
-                        v = self.select_recv_value(fr, s2, ch, ets[ri], ins, site)
+                        ch = self.val(sst['chan'], f2, s2)
+                        rule = self.chan_hook(f2, s2, 'recv', ch, ins, site, operand=sst['chan'], sidx=si)
+                        v = self.fresh(s2, ets[ri], 'recv')
+                        if rule is not None:
+                            s2.assume(self.ev_bool(rule[0], {'st': s2, 'old': None, 'vars': {'v': (v, ets[ri])}, 'fr': f2}))
                     else:
                         v = self.zero(ets[ri])
                     vals.append(v); ri += 1
                 elif si == ci:
-                    ch = self.val(sst['chan'], fr, s2)
-                    self.event(fr, s2, 'send', ch, ins, site)
+                    ch = self.val(sst['chan'], f2, s2)
+                    self.chan_hook(f2, s2, 'send', ch, ins, site, operand=sst['chan'], sidx=si, value=self.val(sst['send'], f2, s2))
             s2.trace.append(('select case %d' % ci, -1))
             cont(s2, TupleV(vals))
 
